@@ -41,6 +41,7 @@ ASSUMPTIONS = ['an expect value is in force after a call that returned; after a 
                'debug=True: lines "Expect value inferred to be ..." are removed before comparing with the fresh grader']
 
 NOEXPECT = '<none>'
+PARTIAL_ONLY = '<configured answers without a full-credit alternative>'
 
 
 # ------------------------------------------------------------------ kinds
@@ -51,6 +52,10 @@ def author_config(kind, answers, debug, which='g1'):
     if which == 'g2' and 'extra_g2' in KINDS[kind]:
         cfg.update(KINDS[kind]['extra_g2']())       # the second instance may be configured differently
     if answers is not None:
+        if isinstance(answers, str) and answers == PARTIAL_ONLY:
+            # configured answers none of which is worth full credit
+            answers = ({'expect': KINDS[kind]['A'], 'grade_decimal': 0.5, 'msg': 'half'},
+                       {'expect': KINDS[kind]['B'], 'grade_decimal': 0, 'msg': 'known mistake'})
         cfg['answers'] = answers
     cfg['debug'] = debug
     return cfg
@@ -238,81 +243,10 @@ def restore_globals(saved):
                 delattr(c, k)
 
 
-def library_containers():
-    """
-    Every mutable container (dict / list / set) held at module level or as a class attribute anywhere in the library
-    (found by scanning the imported modules of the tree under test, so containers introduced by an edit are included).
-    """
-    import sys
-    import types
-    found = []
-    seen = set()
-    for name, mod in list(sys.modules.items()):
-        if mod is None or not (name == 'mitxgraders' or name.startswith('mitxgraders.')):
-            continue
-        for attr, val in list(vars(mod).items()):
-            if isinstance(val, (dict, list, set)) and id(val) not in seen and not attr.startswith('__'):
-                seen.add(id(val))
-                found.append(('%s.%s' % (name, attr), val))
-            if isinstance(val, type) and val.__module__.startswith('mitxgraders'):
-                for cattr, cval in list(vars(val).items()):
-                    if isinstance(cval, (dict, list, set)) and id(cval) not in seen and not cattr.startswith('__'):
-                        seen.add(id(cval))
-                        found.append(('%s.%s.%s' % (name, val.__name__, cattr), cval))
-    return found
-
-
-LIB_STATE = None
-
-
-def snapshot_library_state():
-    global LIB_STATE
-    LIB_STATE = []
-    for name, obj in library_containers():
-        try:
-            LIB_STATE.append((name, obj, copy.deepcopy(obj)))
-        except Exception:
-            pass
-
-
-def restore_library_state():
-    """puts every library-level container back to its pristine content, in place (identity preserved)"""
-    for name, obj, saved in LIB_STATE:
-        try:
-            if obj == saved:
-                continue
-        except Exception:
-            pass
-        fresh = copy.deepcopy(saved)
-        if isinstance(obj, dict):
-            obj.clear()
-            obj.update(fresh)
-        elif isinstance(obj, list):
-            obj[:] = fresh
-        else:
-            obj.clear()
-            obj.update(fresh)
-
-
-class pristine_library(object):
-    """context: run something in the pristine library-level state, then put the current state back"""
-    def __enter__(self):
-        self.cur = []
-        for name, obj, saved in LIB_STATE:
-            try:
-                self.cur.append((obj, copy.deepcopy(obj)))
-            except Exception:
-                pass
-        restore_library_state()
-
-    def __exit__(self, *exc):
-        for obj, cur in self.cur:
-            if isinstance(obj, list):
-                obj[:] = cur
-            else:
-                obj.clear()
-                obj.update(cur)
-        return False
+library_containers = libstate.library_containers
+snapshot_library_state = libstate.snapshot_library_state
+restore_library_state = libstate.restore_library_state
+pristine_library = libstate.pristine_library
 
 
 PRISTINE = None
@@ -374,6 +308,22 @@ def foreign(name, sysm):
             do_call(StringGrader(answers='Cat', case_sensitive=False, strip_all=True, accept_any=False), None, 'c a t')
             do_call(SingleListGrader(answers=['1k', '2'], subgrader=NumericalGrader(metric_suffixes=True), delimiter=';',
                                      partial_credit=False), None, '2;1000')
+        elif name == 'other_graders_hit_errors':
+            # unrelated graders running into every kind of evaluation error (each is reported to that student only)
+            mg = MatrixGrader(answers='[[1,0],[0,1]]', max_array_dim=2)
+            for bad in ('[[2,1],[6,3]]^-1', '[[1,2],[3,4]]^-1*[[0,0],[0,0]]^-1', '[1,2]+[1,2,3]', '[[1,2],[3,4]]^0.5', '[1,2]^2',
+                        '[[1,2],[3', 'det([1,2])', 'norm(1,2)', '1/0', 'exp(1000)*[[1,0],[0,1]]', 'arccosh(0)'):
+                do_call(mg, None, bad)
+            fg = FormulaGrader(answers='x', variables=['x'])
+            for bad in ('1/0', 'x/(x-x)', 'exp(1000)', '10^400', 'arccosh(0)', 'arcsin(7)*0', 'cot(0)', 'ln(0)', 'fact(-1)', 'fact(0.5)',
+                        'sqrt(-1)', 'y', 'f(x)', 'sin(x', 'x+', '2x', 'sin(1,2)', '0^-1', '(0+0*i)^i'):
+                do_call(fg, None, bad)
+            do_call(NumericalGrader(answers='1'), None, 'x')
+        elif name == 'other_graders_battery':
+            # quick tier: the unrelated-grader events rolled into one
+            for sub in ('other_matrix_negpow_off_raises', 'other_grader_deletes_pi', 'other_graders_with_options',
+                        'other_graders_hit_errors'):
+                foreign(sub, sysm)
         elif name == 'register_clear_defaults_on_sibling':
             sib = NumericalGrader if sysm.cls is not NumericalGrader else StringGrader
             sib.register_defaults({'debug': True})
@@ -386,9 +336,10 @@ def foreign(name, sysm):
         raise HarnessError('foreign event %s failed: %r' % (name, e))
 
 
-FOREIGN_Q = ['other_matrix_negpow_off_raises', 'third_grader_from_same_author_config', 'other_grader_deletes_pi',
-             'other_graders_with_options']
-FOREIGN_T = FOREIGN_Q + ['failing_parse', 'other_grader_allow_inf', 'other_grader_identity_dim',
+FOREIGN_ALL = ['other_matrix_negpow_off_raises', 'third_grader_from_same_author_config', 'other_grader_deletes_pi',
+               'other_graders_with_options', 'other_graders_hit_errors']
+FOREIGN_Q = ['third_grader_from_same_author_config', 'other_graders_battery']
+FOREIGN_T = FOREIGN_ALL + ['failing_parse', 'other_grader_allow_inf', 'other_grader_identity_dim',
                          'other_matrix_negpow_off_ok', 'register_clear_defaults_on_sibling']
 
 
@@ -410,7 +361,8 @@ class GraderHistory(BFSFamily):
         self.kindname = kind
         self.configured = configured
         self.debug = debug
-        self.name = 'hist_%s_%s%s' % (kind, 'configured' if configured else 'inferred', '_debug' if debug else '')
+        self.name = 'hist_%s_%s%s' % (kind, ('configured_partial_only' if configured == 'partial' else 'configured') if configured
+                                      else 'inferred', '_debug' if debug else '')
         self.rule = ('%s, answers %s, debug=%s: events = call(target in {g1,g2}, expect in {absent, A, B, invalid}, input in '
                      '{right for A, right for B, wrong, malformed, non-text}) + foreign events; depth <= 4 with canonical-state '
                      'de-duplication; each call compared with a fresh grader (pristine process) holding the effective expect'
@@ -498,7 +450,7 @@ class GraderHistory(BFSFamily):
         s.spec = self.spec
         configured_answers = None
         if not self.simple and self.configured:
-            configured_answers = self.spec['A']
+            configured_answers = PARTIAL_ONLY if self.configured == 'partial' else self.spec['A']
         s.author_cfg = self.make_author_cfg(configured_answers)
         s.author_snapshot = canon_author(s.author_cfg)
         s.g = {'g1': self.cls(s.author_cfg), 'g2': self.cls(self.make_author_cfg(configured_answers, 'g2'))}
@@ -568,7 +520,7 @@ class GraderHistory(BFSFamily):
         snap = global_snapshot()
         snap = dict(snap)
         snap.pop('DEFAULT_FUNCTIONS_ids', None)      # object identities are only meaningful inside one process
-        return (canon(s.g['g1'].__dict__), canon(s.g['g2'].__dict__), canon(snap),
+        return (canon(s.g['g1'].__dict__), canon(s.g['g2'].__dict__), canon(snap), libstate.library_state_diff(canon),
                 tuple(sorted(map(str, s.possible['g1']))), tuple(sorted(map(str, s.possible['g2']))))
 
     def check_transition(self, hist, ev, s):
@@ -755,6 +707,9 @@ def families(tier):
     for kind in CONFIGURED_ONLY:
         for debug in debug_opts:
             fams.append(GraderHistory(kind, True, debug))
+    # configured answers none of which earns full credit (the expect argument is still ignored)
+    for kind in (('String', 'Formula') if tier == 'quick' else list(KINDS)):
+        fams.append(GraderHistory(kind, 'partial', False))
     if tier == 'quick':
         # debug mode: a few kinds in the quick tier too (the log of one call must not reach the next one)
         for kind, configured in (('Formula', False), ('String', True), ('SingleList', False), ('List', True)):
